@@ -20,6 +20,17 @@ CLAIMED = {
   "host-visible traces of pool-stressing templates and generated programs must be identical.",
   "That the VM releases a register set/continuation only when nothing references it is VM discipline: reached by the cross-build trace "
   "equality (testing), not by the theorem. Continuation pools and the luagc pool variants are covered by correspondence only.", "6/C14"),
+ "C19": ("proof",
+  "Lean 4 executable spec of the string/table library (lstrlib.c/ltablib.c position arithmetic, abstract get/set store) + theorems over regenerated StringNormPos/maxpos/minpos + exhaustive small-domain and random correspondence; table.sort validated against the proved Perm/Sorted relation",
+  "43 theorems in lean/GoluaVerif/Props/C19.lean, re-checked every run: laws of sub/byte/char/rep/reverse/upper/lower/plain find for all integer positions and all byte strings; "
+  "insert/remove/move (overlap both ways)/concat/unpack/pack for every store that behaves like a table; gosub_eq_spec / gobyte_eq_spec / gofind_start_eq_spec prove golua's position "
+  "handling (StringNormPos, maxpos, minpos regenerated from luastrings/misc.go and lib/stringlib/stringlib.go) equal to the manual's for every int64 argument; the permutation / ordered / "
+  "strict-weak-order checkers used by the oracle are proved sound and complete, and any swap-only sorter is proved to permute for every comparator outcome sequence. The real functions are "
+  "compared with the spec on every argument tuple over strings of at most 3 symbols / sequences of at most 4 elements x positions {minint, -len-1..len+1, maxint} x 13 table shapes with "
+  "__index/__newindex/__len, random longer inputs, 15 comparators, child-process huge-rep cases.",
+  "Trusted: Lean kernel; Go->Lean translator (string parameter represented by its length); harness/oracle parsers; Go's sort.Sort calling only Less/Swap; strings.Index/Repeat "
+  "(correspondence only). rep's overflow tests are not proved (boundary cases by correspondence). Open by the manual and not compared: explicit nil optionals, number->string coercion of "
+  "arguments, unpack result counts between 256 and 2^31, ranges of more than 4096 elements. One recorded defect (C19-rep-negative), five repaired (known_findings.json).", "6/C19, 14/C19"),
 }
 
 NOT_YET = "machinery for this property is not built yet in this revision (see DESIGN.md section 9 build order); not claimed"
